@@ -1,6 +1,7 @@
 //! One module per property.
 use crate::engine::PropertyMeta;
 
+pub mod c01;
 pub mod c02;
 pub mod c03;
 pub mod c04;
@@ -19,5 +20,5 @@ pub mod c19;
 pub mod c20;
 
 pub fn all() -> Vec<PropertyMeta> {
-    vec![c02::meta(), c03::meta(), c04::meta(), c05::meta(), c06::meta(), c07::meta(), c08::meta(), c09::meta(), c10::meta(), c11::meta(), c12::meta(), c14::meta(), c17::meta(), c18::meta(), c19::meta(), c20::meta()]
+    vec![c01::meta(), c02::meta(), c03::meta(), c04::meta(), c05::meta(), c06::meta(), c07::meta(), c08::meta(), c09::meta(), c10::meta(), c11::meta(), c12::meta(), c14::meta(), c17::meta(), c18::meta(), c19::meta(), c20::meta()]
 }
